@@ -95,9 +95,10 @@ impl LKHSearch {
                 *route_ctx = orig_route_ctx.deep_copy();
             });
 
-        // restore original unassigned jobs and the jobs which are still pending (repair reports them as unassigned)
+        // restore original unassigned jobs and the jobs which are still pending or ignored (repair reports them as unassigned)
         new_solution.solution.unassigned = orig_solution.solution.unassigned.clone();
         new_solution.solution.required = orig_solution.solution.required.clone();
+        new_solution.solution.ignored = orig_solution.solution.ignored.clone();
 
         // recalculate solution state if we do
         new_solution.restore();
